@@ -184,6 +184,28 @@ def run_desc(case, st):
                 except Exception as e:  # noqa: BLE001
                     st.violation(f"C20:desc:raises:{type(e).__name__}:{case['transport']}", rc, d, repr(e)[:100])
                 st.outcome("desc ok")
+            # history: the table is edited in place (same size) through the public API, then used again
+            vals = list(table)
+            if len(vals) >= 2:
+                a, b = vals[0], vals[1]
+                da, db = table[a], table[b]
+                h.var.od.add_value_description(a, db)
+                h.var.od.add_value_description(b, da)
+                for val, d in ((a, db), (b, da)):
+                    st.evaluations += 1
+                    st.nontrivial.add(("desc-edited", ti, t, val, case["transport"]))
+                    rc = dict(case, table=ti, type=t, val=val, edited=True)
+                    try:
+                        h.set_raw_bytes(vals[-1])
+                        h.var.desc = d
+                        if h.raw() != val:
+                            st.violation(f"C20:desc:set-after-table-edit:{case['transport']}", rc, val, h.raw())
+                        if h.var.desc != d:
+                            st.violation(f"C20:desc:get-after-table-edit:{case['transport']}", rc, d, h.var.desc)
+                    except Exception as e:  # noqa: BLE001
+                        st.violation(f"C20:desc:raises-after-table-edit:{type(e).__name__}", rc, d, repr(e)[:100])
+                h.var.od.add_value_description(a, da)
+                h.var.od.add_value_description(b, db)
     st.sample({"desc": case["transport"], "tables": [len(t) for t in tables]}, cap=2)
 
 
